@@ -881,3 +881,17 @@ pub fn run() {
 	local.merge();
 	finish(cx);
 }
+
+
+/// Writes replay artefacts for the two Message Splitter assertions (fixed finding D7b) into `dir`.
+pub fn write_splitter_artefacts(dir: &str) {
+	let (abs, name) = bases(true).into_iter().find(|(_, n)| *n == "v3.16").unwrap();
+	let v = abs.v2();
+	let doc = record(&abs).doc;
+	for (dev, file) in [(Dev::SplitLive(0, 513), "D7b_splitter_block_size_over_512_assert"), (Dev::SplitDeclared(515), "D7b_splitter_payload_not_516_assert")] {
+		let bytes = apply(&doc, &dev, v).unwrap();
+		let p = P { class: "splitter", ..Default::default() };
+		let art = json!({"property": "C06", "oracle": "robust", "tier": "quick", "label": format!("{} {:?}", name, dev), "params": p.to_json(), "input_hex": hex(&bytes), "key": "C06|robust|splitter|panic", "message": "Message Splitter assertion (fixed by 263616e)"});
+		std::fs::write(format!("{}/{}.json", dir, file), serde_json::to_string_pretty(&art).unwrap()).unwrap();
+	}
+}
